@@ -299,10 +299,10 @@ func (m *LifeMon) OnEvent(c *eng.Ctx, ms eng.MState, ev *eng.Event) eng.MState {
 		case "cb:GetWait":
 			if len(ev.Results) > 0 {
 				s.waitTerm = ev.Results[0]
-				chk("C20.R1", ev.Recv != nil && ev.Recv.Contains(m.Node), "the retry wait is read from "+ev.Recv.Pretty()+", not from the node being run")
+				chk("C20.R1,C19.R7", ev.Recv != nil && ev.Recv.Contains(m.Node), "the retry wait is read from "+ev.Recv.Pretty()+", not from the node being run")
 			}
 		case "cb:GetMaxRetries":
-			chk("C02.R1", ev.Recv != nil && ev.Recv.Contains(m.Node), "the retry budget is read from "+ev.Recv.Pretty()+", not from the node being run")
+			chk("C02.R1,C19.R7", ev.Recv != nil && ev.Recv.Contains(m.Node), "the retry budget is read from "+ev.Recv.Pretty()+", not from the node being run")
 		case "cb:Prep":
 			s = m.onPrep(c, s, ev, batch, chk)
 		case "cb:Exec":
